@@ -64,7 +64,7 @@ def one_run(dev, td, cfg, ref):
             with h5py.File(p, "w") as f:
                 f["marker"] = np.arange(5)
         pre[name] = sha(p)
-    out_path = os.path.join(work, "out.h5") if cfg["explicit"] else None
+    out_path = os.path.join(work, cfg.get("name", "out.h5")) if cfg["explicit"] else None
     N, k = cfg["N"], cfg["k"]
     skipN = 3 if cfg["stage"] == "thermal" else 0
     opts = runs.make_options(None, solve_time=N * DT, skip_time=skipN * DT, dt_init=DT, dt_max=DT, adaptive=False,
@@ -352,6 +352,11 @@ def run(rep: common.Report, tier: str, seed: int, replay=None) -> int:
         for kind, p in (("err", 2), ("kbd", 4), ("err", 10 ** 6)):
             cfgs.append(dict(id=cid, N=N, k=3, p=p, kind=kind, where="update", stage="main", explicit=True, preexisting=pre))
             cid += 1
+    # free-form output names (braces, spaces, unicode, several dots), stopped by an error and by a cancellation
+    for nm_ in ("sweep_{I}_{B}.h5", "set{1,2}.h5", "out put é.h5", "a.b.c.h5", "100%.h5"):
+        for kind, p in (("err", 3), ("kbd", 4)):
+            cfgs.append(dict(id=cid, N=N, k=3, p=p, kind=kind, where="update", stage="main", explicit=True, preexisting=[], name=nm_))
+            cid += 1
     with tempfile.TemporaryDirectory(prefix="pyt_c15_") as td:
         # fault-free reference: every step saved
         ref_opts = runs.make_options(None, solve_time=N * DT, dt_init=DT, dt_max=DT, adaptive=False, save_every=1,
@@ -402,7 +407,8 @@ def run(rep: common.Report, tier: str, seed: int, replay=None) -> int:
         for (cfg, labels, oname) in model_cases:
             pre = tuple(cfg["preexisting"])
             m = chosen[order.index(pre)]
-            mname = "out.h5" if m == 0 else f"out-{m}.h5"
+            stem_ = cfg.get("name", "out.h5")[:-3]
+            mname = f"{stem_}.h5" if m == 0 else f"{stem_}-{m}.h5"
             if oname != mname:
                 ndis += 1
                 rep.not_shown("correspondence: output file name differs from Model.Files.create",
